@@ -747,6 +747,20 @@ impl<'tcx> Dumper<'tcx> {
             }
             _ => {}
         }
+        // pointer to a static / to anonymous memory?
+        if let mir::Const::Val(ConstValue::Scalar(Scalar::Ptr(ptr, _)), _) = c.const_ {
+            let (prov, off) = ptr.into_raw_parts();
+            match tcx.global_alloc(prov.alloc_id()) {
+                GlobalAlloc::Static(did) => {
+                    o.put("static", J::s(self.path(did)));
+                    o.put("offset", J::Int(off.bytes() as i128));
+                }
+                GlobalAlloc::Memory(_) => {
+                    o.put("memory", J::Bool(true));
+                }
+                _ => {}
+            }
+        }
         let is_scalar_ty = matches!(
             ty.kind(),
             ty::Bool | ty::Char | ty::Int(_) | ty::Uint(_)
